@@ -163,9 +163,15 @@ def automata_entry(prog):
         A = Automaton(prog, ctor, sw)
         autos[ctor] = A
         merge_obs(obs, obs_of(A.ctor_engine))
+        lacks = A.may_lack_extra()
         for s in range(A.states_no):
             I, res = A.step_relation(s)
             merge_obs(obs, obs_of(I))
+            if lacks:
+                # the constructor can return the automaton without its extra block (second allocation failed): every
+                # step must cope with that, from every state
+                I, res = A.step_relation(s, extra_null=True)
+                merge_obs(obs, obs_of(I))
         # table invariants used for every index
         bad = [r for r in A.rows if not (r[0] < A.states_no and r[1] < A.states_no)]
         info.append({'automaton': ctor, 'states': A.states_no, 'rows': len(A.rows), 'rows_out_of_range': bad, 'initial': A.initial,
